@@ -59,16 +59,19 @@ class SlotStr(AnySymbolicStr, CrossHairValue):
 
         with NoTracing():
             sp = context_statespace()
-            if sp.solver.check() != z3.sat:
-                raise RuntimeError("pin on infeasible/unknown path")
-            mdl = sp.solver.model()
-            out = []
+            from .z3str import stable_values
+
+            flat = []
             for g, c in self.slots:
-                gv = mdl.eval(g, model_completion=True)
+                flat.extend([g, c])
+            vals = stable_values(sp, flat)
+            out = []
+            for i, (g, c) in enumerate(self.slots):
+                gv = vals[2 * i]
                 if not (z3.is_true(g) or z3.is_false(g)):
                     sp.add(g == gv)
                 if z3.is_true(gv):
-                    cv = mdl.eval(c, model_completion=True)
+                    cv = vals[2 * i + 1]
                     if not z3.is_int_value(c):
                         sp.add(c == cv)
                     out.append(chr(cv.as_long()))
